@@ -321,7 +321,7 @@ fn script_body(script: Vec<SOp>, permits: usize, nclients: usize, out: Arc<std::
     });
 }
 
-fn gen_script(rng: &mut Rng, nclients: usize, len: usize) -> Vec<SOp> {
+pub fn gen_script(rng: &mut Rng, nclients: usize, len: usize) -> Vec<SOp> {
     let mut st: Vec<u8> = vec![0; nclients]; // 0 none, 1 has acquire
     let mut v = vec![];
     for _ in 0..len {
@@ -366,7 +366,7 @@ fn gen_script(rng: &mut Rng, nclients: usize, len: usize) -> Vec<SOp> {
     v
 }
 
-fn run_script(script: &[SOp], permits: usize, nclients: usize, k: usize, seed: u64, acc: &mut Acc) {
+pub fn run_script(script: &[SOp], permits: usize, nclients: usize, k: usize, seed: u64, acc: &mut Acc) {
     let wit = |extra: serde_json::Value| json!({"permits": permits, "clients": nclients, "script": format!("{:?}", script), "detail": extra});
     let out: Arc<std::sync::Mutex<Vec<StepObs>>> = Arc::new(std::sync::Mutex::new(vec![]));
     let ids: Arc<std::sync::Mutex<Vec<usize>>> = Arc::new(std::sync::Mutex::new(vec![]));
@@ -550,7 +550,7 @@ fn scenario(which: usize) -> (&'static str, Box<dyn Fn() + Send + Sync>) {
     }
 }
 
-fn run_scenario(which: usize, acc: &mut Acc) {
+pub fn run_scenario(which: usize, acc: &mut Acc) {
     let (name, body) = scenario(which);
     let body: Arc<dyn Fn() + Send + Sync> = Arc::from(body);
     let bad: Rc<RefCell<Vec<(String, Vec<u32>)>>> = Rc::new(RefCell::new(vec![]));
